@@ -61,7 +61,7 @@ def replay_file(mod, path: str):
     sub = data["subcheck"]
     fn = mod.SUBCHECKS[sub]
     ctx = core.Ctx(mod.ID, "quick", 0, 0, 1, mod.SUBCHECKS)
-    ctx.open_sigs = {}  # a replay never suppresses anything
+    ctx.open_findings = []  # a replay never suppresses anything
     try:
         ctx.execute(sub, fn, data["case"])
     except core.Failure as f:
@@ -120,7 +120,7 @@ def main(argv=None):
         entry = reg_by_path.get(path)
         if f is None:
             continue
-        if entry is not None and entry.get("status") == "open" and f.full_sig == entry["sig"]:
+        if entry is not None and entry.get("status") == "open" and core.finding_matches(entry, f.full_sig):
             entry["_reproduced"] = True
             continue
         violations.append({"sub": "regression", "sig": f.full_sig, "msg": f.msg, "replay": path})
@@ -155,9 +155,9 @@ def main(argv=None):
     for e in known:
         if e.get("status") != "open":
             continue
-        hits = merged["known_hits"].get(e["sig"], 0)
+        hits = merged["known_hits"].get(e["id"], 0)
         if hits or e.get("_reproduced"):
-            print(f"KNOWN-FINDING: property={pid} {e['id']} {e['what']} (sig={e['sig']}, hits={hits})")
+            print(f"KNOWN-FINDING: property={pid} {e['id']} {e['what']} (matcher={e.get('sig') or e.get('sig_re')}, hits={hits})")
     for v in violations:
         print(f"violation: {v['sig']}: {v['msg'][:1500]}")
         print(f"VIOLATION property={pid} replay={v['replay']}")
@@ -172,7 +172,7 @@ def write_evidence(mod, tier, seed, results, violations, wall, reg_run, partial=
     from collections import Counter
 
     evaluations = sum(r["evaluations"] for r in results)
-    sub_evals, sub_nt, classes, known_hits = Counter(), Counter(), Counter(), Counter()
+    sub_evals, sub_nt, classes, known_hits, known_sigs = Counter(), Counter(), Counter(), Counter(), Counter()
     nontrivial = set()
     block_nt = 0
     samples = []
@@ -182,6 +182,7 @@ def write_evidence(mod, tier, seed, results, violations, wall, reg_run, partial=
         sub_evals.update(r["sub_evals"])
         classes.update(r["classes"])
         known_hits.update(r["known_hits"])
+        known_sigs.update(r.get("known_sigs", {}))
         nontrivial.update(r["nontrivial"])
         block_nt += r.get("block_nontrivial", 0)
         for s in r["samples"]:
@@ -215,6 +216,7 @@ def write_evidence(mod, tier, seed, results, violations, wall, reg_run, partial=
             "subchecks": dict(sub_evals),
             "classes": dict(sorted(classes.items())),
             "known_hits": dict(known_hits),
+            "known_hit_signatures": dict(known_sigs),
             "regressions_replayed": reg_run,
             "exhaustive": bool(exhaustive) and all(bool(v.get("complete", True)) if isinstance(v, dict) else bool(v) for v in exhaustive.values()) and getattr(mod, "ALL_EXHAUSTIVE", False),
             "exhaustive_parts": exhaustive,
